@@ -13,6 +13,7 @@ import (
 	"sort"
 	"strings"
 	"testing"
+	"time"
 
 	"github.com/dapr/kit/events/broadcaster"
 
@@ -31,12 +32,15 @@ import (
 //	    Broadcast has to wait for it, i.e. with at most buffer-many values
 //	    outstanding for it: Broadcast, Subscribe and Close must still return
 //	    (nothing is claimed about the reader itself)
+//	'd' slow reader that stays: lets `delay` of model time pass before every
+//	    receive, receives for ever, never leaves (timeline mode)
 //	'q' prompt reader that cancels its context at some later moment (own
 //	    thread, like 'x'; it keeps reading)
 type sub struct {
-	kind byte
-	k    int  // values read by a slow reader
-	late bool // Subscribe is called from its own thread, racing with the broadcasts
+	kind  byte
+	k     int           // values read by a slow reader
+	late  bool          // Subscribe is called from its own thread, racing with the broadcasts
+	delay time.Duration // 'd': model time slept before every receive
 }
 
 type scen struct {
@@ -77,6 +81,9 @@ func (s scen) name() string {
 		t := string(x.kind)
 		if x.kind == 's' {
 			t += fmt.Sprint(x.k)
+		}
+		if x.kind == 'd' {
+			t += x.delay.String()
 		}
 		if x.late {
 			t += "L"
@@ -240,6 +247,13 @@ func mkExec(s scen) *mc.Exec {
 						read()
 					}
 				})
+			case 'd':
+				mc.GoNamed(fmt.Sprintf("reader%d", i), func() {
+					for {
+						mc.TimeSleep(x.delay)
+						read()
+					}
+				})
 			case 's':
 				mc.GoNamed(fmt.Sprintf("reader%d", i), func() {
 					for n := 0; n < x.k; n++ {
@@ -357,7 +371,7 @@ func mkExec(s scen) *mc.Exec {
 			// and stays subscribed while the broadcaster is open: only claimed
 			// in histories where the broadcaster stays open and the subscriber
 			// never leaves
-			if s.closeAt < 0 && !closeCalled && sr.kind == 'p' {
+			if s.closeAt < 0 && !closeCalled && (sr.kind == 'p' || sr.kind == 'd') {
 				for _, r := range bcs {
 					if r.called && r.subsBefore[i] && !seen[r.val] {
 						return fmt.Errorf("lost value: subscriber %d (subscribed before the call, never left, broadcaster open) never received %d; %s", i, r.val, describe())
@@ -493,6 +507,7 @@ const (
 	classDuring = "broadcaster/departure-during-delivery"
 	classStall  = "broadcaster/close-with-stalled-subscriber"
 	classMulti  = "broadcaster/overlapping-close"
+	classSlow   = "broadcaster/slow-staying-reader"
 )
 
 func classOf(s scen) string {
@@ -601,7 +616,7 @@ func scaledScenarios() []hx.Scenario {
 		names[n] = true
 		out = append(out, hx.Scenario{
 			Name: n, Class: classOf(s), ThoroughOnly: thoroughOnly,
-			Opts: mc.Options{Delay: delay, MinBound: min, Bound: max, MaxSteps: 6000},
+			Opts: mc.Options{Delay: delay, MinBound: min, Bound: max, MaxSteps: 6000, AutoClock: hasDelay(s), ClockLast: hasDelay(s), Horizon: 48 * time.Hour},
 			Mk:   func() *mc.Exec { return mkExec(sc) },
 		})
 		// shards are handed out in list order and a part that runs out of
@@ -656,6 +671,23 @@ func scaledScenarios() []hx.Scenario {
 					case nv == 1, len(shape) == 1 && nv == 2, nv == 2 && c < 0:
 						add(s, false, 1, 1, false)
 					}
+				}
+			}
+		}
+	}
+	// a staying, well-behaved but SLOW reader: model time passes before each of
+	// its receives (timeline mode: the clock moves only at quiescence), 1-3
+	// values (buffer 2 + the one in the forwarder's hand: Broadcast never has
+	// to wait for the reader), alone or next to a prompt reader, no Close:
+	// exactly once and one common order, whatever the delay
+	for _, nv := range []int{1, 2, 3} {
+		for _, d := range slowDelays {
+			sl := sub{kind: 'd', delay: d}
+			for si, ss := range [][]sub{{sl}, {sl, {kind: 'p'}}, {{kind: 'p'}, sl}} {
+				before := len(out)
+				add(scen{bcs: values([]int{nv}), subs: ss, closeAt: -1, class: classSlow}, true, 2, 3, si == 2 || (si == 1 && nv == 3))
+				if len(out) > before {
+					prio[len(prio)-1] = 0
 				}
 			}
 		}
@@ -782,6 +814,19 @@ func scaledScenarios() []hx.Scenario {
 	return sorted
 }
 
+// slowDelays: the time a slow but well-behaved reader lets pass before each
+// receive; nothing in the statement depends on it.
+var slowDelays = []time.Duration{time.Millisecond, 100 * time.Millisecond, time.Second, 2 * time.Second, 2*time.Second + 1, 5 * time.Second, time.Minute, time.Hour}
+
+func hasDelay(s scen) bool {
+	for _, x := range s.subs {
+		if x.kind == 'd' {
+			return true
+		}
+	}
+	return false
+}
+
 func hasLeaver(ss []sub) bool {
 	for _, x := range ss {
 		if x.kind != 'p' {
@@ -812,6 +857,19 @@ func trueSizeScenarios(capacity int) []hx.Scenario {
 					})
 				}
 			}
+		}
+	}
+	// a slow staying reader with the real buffer (10) + 1 outstanding
+	for _, d := range []time.Duration{2*time.Second + 1, time.Hour} {
+		for _, ss := range [][]sub{{{kind: 'd', delay: d}}, {{kind: 'd', delay: d}, {kind: 'p'}}} {
+			s := scen{bcs: values([]int{capacity + 1}), subs: ss, closeAt: -1, class: classSlow}
+			sc := s
+			out = append(out, hx.Scenario{
+				Name: fmt.Sprintf("cap%d %s", capacity, s.name()), Class: classOf(s),
+				ThoroughOnly: len(ss) > 1,
+				Opts:         mc.Options{Delay: true, MinBound: 1, Bound: 2, MaxSteps: 20000, AutoClock: true, ClockLast: true, Horizon: 48 * time.Hour},
+				Mk:           func() *mc.Exec { return mkExec(sc) },
+			})
 		}
 	}
 	// a subscriber that neither reads nor cancels with exactly the real buffer
